@@ -517,9 +517,8 @@ def parse_row(r):
     tags = {}
     famlist = []
     if fams:
-        for fam in fams.split(";"):
-            name, _, body = fam.partition("{")
-            body = body[:-1]
+        for mm in re.finditer(r";?([^;{}]*)\{([^}]*)\}", fams):       # array values contain ';' themselves
+            name, body = mm.group(1), mm.group(2)
             kv = [x.split("=", 1) for x in body.split(",")] if body else []
             famlist.append((name, kv))
             for k, v in kv:
@@ -682,7 +681,26 @@ P6 = {"gb-empty", "gb-unknown-tag", "gb-non-scalar"}
 
 
 def keyseq(rows, field):
-    return [parse_row(r)["fields"].get(field) for r in rows]
+    """sort keys as the heaps compare them: -0.0 and +0.0 are one key"""
+    out = []
+    for r in rows:
+        k = parse_row(r)["fields"].get(field)
+        out.append("F0000000000000000" if k == "F8000000000000000" else k)
+    return out
+
+
+def close_enough(a, b):
+    """two aggregate values that may only differ by float accumulation order"""
+    if a == b:
+        return True
+    if not (a and b and a[0] == "F" and b[0] == "F"):
+        return False
+    x, y = (struct.unpack(">d", struct.pack(">Q", int(v[1:], 16)))[0] for v in (a, b))
+    if x != x or y != y:
+        return (x != x) == (y != y)
+    if x in (float("inf"), float("-inf")) or y in (float("inf"), float("-inf")):
+        return x == y
+    return abs(x - y) <= 1e-9 * max(abs(x), abs(y), 1e-300)
 
 
 def classify_divergence(ds, rq, row, vec, distributed):
@@ -705,7 +723,7 @@ def classify_divergence(ds, rq, row, vec, distributed):
     if rs == "PANIC" and vs == "PANIC":
         return V("both pipelines panic")
     # ---- request shapes outside the documented contract (neither pipeline validates them the same way)
-    if viol & P4 and (rs in ("ERR", "PANIC")) and vs == "OK":
+    if viol & P4 and ((rs in ("ERR", "PANIC") and vs == "OK") or rs == "PANIC"):
         return ("known", "F15p4", "top.number <= 0: row path panics in TopQueue.Insert, vectorized path returns no rows")
     if viol & P6 and vs == "ERR" and "GroupBy" in vec:
         return ("known", "F15p6", "group_by with empty/unknown/non-scalar tags: vectorized analyzer rejects, row path answers")
@@ -781,6 +799,11 @@ def classify_divergence(ds, rq, row, vec, distributed):
                 return sorted((tuple(parse_row(r)["tags"].get(t, "?") for t in F["gb_tags"]), tuple(sorted(parse_row(r)["fields"].items()))) for r in rows)
             if core(rr) == core(vr):
                 return ("known", "F15b", "group_by == entity: group order / representative tags differ (series order vs first seen)")
+            cr, cv = core(rr), core(vr)
+            if F["ftype"].get(rq["agg"]["field"]) == "f" and rq["agg"]["fn"] in ("SUM", "MEAN") and len(cr) == len(cv) and \
+                    all(a[0] == b[0] and len(a[1]) == len(b[1]) and all(x[0] == y[0] and close_enough(x[1], y[1]) for x, y in zip(a[1], b[1]))
+                        for a, b in zip(cr, cv)):
+                return ("known", "F15b", "group_by == entity: float SUM/MEAN accumulated in series order vs time order (last-bit difference)")
             return V("group_by == entity: aggregated groups differ as multisets")
         kr = sorted(tuple(parse_row(r)["tags"].get(t, "?") for t in F["gb_tags"]) for r in rr)
         kv = sorted(tuple(parse_row(r)["tags"].get(t, "?") for t in F["gb_tags"]) for r in vr)
